@@ -7,7 +7,7 @@
 (* 7 'g' (the GitHub head, alnum), 8 'i' (the word "issues", alnum).       *)
 (***************************************************************************)
 EXTENDS Discover
-CONSTANTS MaxURIs, MaxLen, Chars
+CONSTANTS MaxURIs, MaxLen, Chars, Tier
 VARIABLES uris, cur, args, res
 dvars == <<uris, cur, args, res>>
 
@@ -17,9 +17,10 @@ MCAlnum == {1, 2, 7, 8}
 MCDefaultDelims == <<<<4>>, <<3>>, <<5>>>>
 MCGithub == <<7>>
 MCIssues == <<8>>
-DelimLists == {<<>>, <<<<3>>>>, <<<<5>>, <<3>>>>, <<<<3>>, <<4>>, <<5>>>>, <<<<6>>>>, <<<<3, 3>>>>}
-Cutoffs == {<<>>, <<0>>, <<1>>, <<2>>}
-Metas == {<<110, 115>>, <<110, 49>>}
+DelimLists == IF Tier = "quick" THEN {<<>>, <<<<5>>, <<3>>>>, <<<<3, 3>>>>}
+              ELSE {<<>>, <<<<3>>>>, <<<<5>>, <<3>>>>, <<<<3>>, <<4>>, <<5>>>>, <<<<6>>>>, <<<<3, 3>>>>}
+Cutoffs == IF Tier = "quick" THEN {<<>>, <<1>>, <<2>>} ELSE {<<>>, <<0>>, <<1>>, <<2>>}
+Metas == IF Tier = "quick" THEN {<<110, 115>>} ELSE {<<110, 115>>, <<110, 49>>}
 PreConvs == {<<>>, <<Construct(<<Rec(<<120>>, <<1, 3>>, {}, {}, NoPat)>>, <<58>>, TRUE).conv>>}
 
 DInit == uris = <<>> /\ cur = <<>> /\ args = <<>> /\ res = <<>>
